@@ -315,7 +315,13 @@ def languages_over_registry(ctx, rl, regname='readcodefunc'):
     """The language-listing method ranges over the registry (for loop or comprehension, keys() or the dict itself)
     and filters on the dispatcher's result being None / not None."""
     REG = (regname, f'{regname}.keys()', f'list({regname})', f'sorted({regname})', f'list({regname}.keys())',
-           f'sorted({regname}.keys())', f'tuple({regname})')
+           f'sorted({regname}.keys())', f'tuple({regname})', f'{regname}.items()', f'sorted({regname}.items())')
+    # a method that only hands the question on (`return readcodelanguages(self)`) is judged by the function it calls
+    body = [s_ for s_ in rl.node.body if not (isinstance(s_, ast.Expr) and isinstance(s_.value, ast.Constant))]
+    if len(body) == 1 and isinstance(body[0], ast.Return) and isinstance(body[0].value, ast.Call):
+        tg = [t for k, t in ctx.R.resolve_call(body[0].value, rl) if k == 'repo']
+        if len(tg) == 1 and tg[0] is not rl:
+            return languages_over_registry(ctx, tg[0], regname)
     over = False
     for n in own_nodes(rl.node):
         if isinstance(n, ast.For) and norm(n.iter) in REG:
